@@ -334,6 +334,27 @@ def l3b(chk, repo, models, rule="L3b", only_keys=None):
         chk.ok(rule, "no write to keys %s" % sorted(only_keys), "openaerostruct", "guard keys are never rewritten") if not any(i.rule == rule and i.status == "violation" for i in chk.instances) else None
 
 
+def l5(chk, repo, rule="L5", keys=None):
+    """'value or default' on a numeric configuration value replaces an admissible 0."""
+    chk.rule(rule, "a numeric configuration value is never defaulted with '<value> or <default>' (a legitimate 0 / 0.0 would silently be replaced by the default); defaults are taken with a key-presence test or dict.get(key, default)", min_decided=20 if keys is None else 1)
+    n_ok = 0
+    for mod in repo.modules.values():
+        for node in ast.walk(mod.tree):
+            if isinstance(node, ast.BoolOp) and isinstance(node.op, ast.Or) and len(node.values) == 2:
+                a, b = node.values
+                if not (isinstance(b, ast.Constant) and isinstance(b.value, (int, float)) and not isinstance(b.value, bool) and b.value != 0):
+                    continue
+                sa = unparse(a)
+                cfgish = (".get(" in sa or "[" in sa) and ("surface" in sa or "section" in sa or "options" in sa or "input_dict" in sa or "surf_dict" in sa)
+                if not cfgish:
+                    continue
+                if keys is not None and not any(("'%s'" % k) in sa.replace('"', "'") for k in keys):
+                    continue
+                chk.violation(rule, "%s: %s" % (mod.rel.split("/", 1)[1], " ".join(unparse(node).split())[:70]), "%s:%d" % (mod.rel, node.lineno), "'%s' replaces an admissible value 0 of the configuration entry by %r" % (unparse(node)[:70], b.value))
+    for c in repo.components() + repo.groups():
+        chk.ok(rule, "%s: no 'value or default' on configuration numbers" % c.name, c.where, "") if not any(i.rule == rule and i.status == "violation" and i.where.split(":")[0] == c.mod.rel for i in chk.instances) else None
+
+
 def l4(chk, repo, models):
     chk.rule("L4", "no unseeded random source in analysed code", min_decided=2)
     n = 0
@@ -362,5 +383,6 @@ def run(chk, repo, tier):
     l2(chk, repo)
     l3(chk, repo, models)
     l3b(chk, repo, models)
+    l5(chk, repo)
     l4(chk, repo, models)
     r3(chk, repo)
